@@ -189,11 +189,416 @@ def replay_fields(res):
     return d
 
 
+# ================================================================================================ Bmad-X / conversions
+# Same obligation for harness/translate_bmadx.py: Gen/BmadxGen.v (regenerated), Gen/BmadxGenEquiv.v, Gen/BmadxGenProps.v
+# against the hand-written models Bmadx/{Coords,DriftX,Tdc,QuadX,BendX}.v and Beam/SI.v (properties C07, C03, C09, C18).
+BX_IMPORT_GEN = "From Cheetah.Gen Require Import BmadxGen."
+BX_IMPORT_EQV = "From Cheetah.Gen Require Import BmadxGenEquiv."
+BX_TARGETS = ["theories/Gen/BmadxGenBase", "theories/Bmadx/QuadX", "theories/Beam/SI"]
+BX_PREREQ = ["theories/Optics/Maps", "theories/Bmadx/Coords", "theories/Bmadx/DriftX", "theories/Bmadx/Tdc", "theories/Bmadx/QuadX",
+             "theories/Bmadx/BendX", "theories/Beam/SI", "theories/Gen/BmadxGenBase"]
+BX_DEPS = {"theories/Bmadx/DriftX": ["theories/Bmadx/Coords"], "theories/Bmadx/Tdc": ["theories/Bmadx/DriftX"],
+           "theories/Bmadx/QuadX": ["theories/Bmadx/Tdc"], "theories/Bmadx/BendX": ["theories/Bmadx/Tdc"],
+           "theories/Gen/BmadxGenBase": ["theories/Optics/Maps", "theories/Bmadx/BendX"]}
+
+
+def _bx_prereq_fresh():
+    mt = {}
+    for p in BX_PREREQ:
+        v, vo = common.COQ / (p + ".v"), common.COQ / (p + ".vo")
+        if not vo.exists() or vo.stat().st_mtime < v.stat().st_mtime:
+            return False
+        mt[p] = vo.stat().st_mtime
+    return all(mt[d] <= mt[p] for p, ds in BX_DEPS.items() for d in ds)
+
+
+def translator_obligation_bmadx(run=None, audit="bundle", timeout=200):
+    """Same contract as translator_obligation (statuses ok / translator_failed / equivalence_broken / stage_error, same keys),
+    for the Bmad-X tracking code and the coordinate / SI conversions.  Records into run.cov["translator_bmadx"].  Prints nothing."""
+    import translate_bmadx
+    t0 = time.time()
+    res = dict(status="ok", repo=str(common.REPO), translated=[], lemmas=[], theorems=[], axioms=[])
+
+    def done():
+        res["wall_s"] = round(time.time() - t0, 2)
+        if run is not None:
+            n = len(res["lemmas"]) + len(res["theorems"]) or 1
+            run.cov["obligations"] += n
+            if res["status"] == "ok":
+                run.cov["discharged"] += n
+            run.cov["translator_bmadx"] = {k: res.get(k) for k in ("status", "reason", "file", "line", "lemma", "generated_sha256", "committed_copy_stale",
+                                                                     "translated", "lemmas", "theorems", "axioms", "wall_s")}
+            tb = ("source-to-Coq translator harness/translate_bmadx.py (scalar-per-particle reading, mask reading and primitive table in its docstring): "
+                  "ties Bmadx/{Coords,DriftX,Tdc,QuadX,BendX}.v and Beam/SI.v to /repo's source text")
+            if tb not in run.cov["trusted_base"]:
+                run.cov["trusted_base"].append(tb)
+        return res
+
+    # 1. translate (pure syntax; nothing of cheetah is imported)
+    try:
+        text, info = translate_bmadx.generate(common.REPO)
+    except translate_maps.TranslateError as ex:
+        res.update(status="translator_failed", reason=ex.reason, file=ex.file, line=ex.line)
+        return done()
+    except RecursionError:
+        res.update(status="translator_failed", reason="expression nesting too deep for the translator", file=None, line=None)
+        return done()
+    res["translated"] = info
+    res["generated_sha256"] = hashlib.sha256(text.encode()).hexdigest()
+    committed = GEN / "BmadxGen.v"
+    res["committed_copy_stale"] = (not committed.exists()) or committed.read_text() != text
+
+    # 2. prerequisites (hand-written, stable)
+    if not _bx_prereq_fresh():
+        for tgt in BX_TARGETS:
+            ok, log = common.coq_build(tgt + ".vo")
+            if not ok:
+                res.update(status="stage_error", reason=f"build of {tgt}.vo failed: " + log[-800:])
+                return done()
+
+    bdir = common.BUILD / "translate_bmadx"
+    bdir.mkdir(parents=True, exist_ok=True)
+    for old in bdir.glob("BmadxGen*"):
+        old.unlink()
+    extra = ["-Q", str(bdir), FRESH]
+    try:
+        eqv = _redirect((GEN / "BmadxGenEquiv.v").read_text(), BX_IMPORT_GEN, f"From {FRESH} Require Import BmadxGen.", "BmadxGenEquiv.v")
+        props = _redirect((GEN / "BmadxGenProps.v").read_text(), BX_IMPORT_GEN, f"From {FRESH} Require Import BmadxGen.", "BmadxGenProps.v")
+        props = _redirect(props, BX_IMPORT_EQV, f"From {FRESH} Require Import BmadxGenEquiv.", "BmadxGenProps.v")
+    except (RuntimeError, OSError) as ex:
+        res.update(status="stage_error", reason=str(ex))
+        return done()
+    res["lemmas"] = re.findall(r"^\s*Lemma\s+(gen_[\w']+)", eqv, flags=re.M)
+    res["theorems"] = re.findall(r"^\s*Theorem\s+([\w']+)", props, flags=re.M)
+    missing = [i["coq_name"] + "_eq" for i in info if i["coq_name"] + "_eq" not in res["lemmas"]]
+    missing += [i["coq_name"] + "_pre_eq" for i in info if i["has_precondition"] and i["coq_name"] + "_pre_eq" not in res["lemmas"]]
+    # a lemma about a precondition that the regenerated file no longer has would be about the committed copy only
+    have = {i["coq_name"] for i in info} | {i["coq_name"] + "_pre" for i in info if i["has_precondition"]}
+    missing += [lm + " (no such generated definition)" for lm in res["lemmas"] if lm.endswith("_eq") and lm[:-3] not in have]
+    if missing:
+        res.update(status="equivalence_broken", lemma="<missing> " + ", ".join(missing), file="BmadxGenEquiv.v", line=0,
+                   coq_error="the regenerated file and Gen/BmadxGenEquiv.v do not list the same definitions")
+        return done()
+    if audit == "bundle":
+        props = re.sub(r"^Print Assumptions [\w']+\.\s*$", "", props, flags=re.M)
+        props += "\nDefinition trx_all := (" + ", ".join(res["theorems"]) + ").\nPrint Assumptions trx_all.\n"
+
+    # 3. compile the fresh transcription, then the proofs against it
+    for name, body in (("BmadxGen.v", text), ("BmadxGenEquiv.v", eqv), ("BmadxGenProps.v", props)):
+        path = bdir / name
+        path.write_text(body)
+        rc, out, err = common.coqc(path, extra=extra, timeout=timeout)
+        if rc != 0:
+            if name == "BmadxGen.v":
+                m = re.search(r'line (\d+), characters', err or "")
+                res.update(status="translator_failed", reason="generated file does not compile: " + (err or "")[-600:],
+                           file="BmadxGen.v", line=int(m.group(1)) if m else 0)
+                return done()
+            _coq_failure(res, path, body, rc, err)
+            return done()
+    closed, axioms = _assumptions(out)
+    res["axioms"] = sorted(axioms)
+    bad = sorted(a for a in axioms if a not in common.AXIOM_WHITELIST and a.split(".")[-1] not in common.AXIOM_WHITELIST)
+    forbidden = re.compile(r"\b(Admitted|admit|Axiom|Axioms|Parameter|Parameters|Conjecture|Unset Guard Checking|bypass_check)\b")
+    for f in ("BmadxGenBase.v", "BmadxGenEquiv.v", "BmadxGenProps.v"):
+        body = re.sub(r"\(\*.*?\*\)", "", (GEN / f).read_text(), flags=re.S)
+        bad += [f"{m.group(1)} in Gen/{f}" for m in forbidden.finditer(body)]
+    if forbidden.search(text):
+        bad.append("forbidden vernacular in the generated text")
+    if bad or (not axioms and not closed):
+        res.update(status="stage_error", reason=f"axiom audit failed: {bad or 'no Print Assumptions output'}")
+    return done()
+
+
+def replay_fields_bmadx(res):
+    """Compact, JSON-able description of a non-ok result of translator_obligation_bmadx for a replay/violation record."""
+    keep = ("status", "reason", "file", "line", "lemma", "coq_error", "generated_sha256")
+    d = {k: res[k] for k in keep if res.get(k) is not None}
+    d["kind"] = "translator_bmadx"
+    d["broken"] = ("source left the translated fragment: " + str(res.get("reason"))) if res["status"] == "translator_failed" else \
+        (f"Gen/BmadxGenEquiv.v {res.get('lemma')}: regenerated definition <> hand-written model (Bmadx/*.v, Beam/SI.v)"
+         if res["status"] == "equivalence_broken" else str(res.get("reason")))
+    return d
+
+
+# ------------------------------------------------------------------------------------------------------------------
+# Structural code of segment.py / Element.track (harness/translate_seg.py, Gen/SegGen*.v)
+SEG_IMPORT_GEN = "From Cheetah.Gen Require Import SegGen."
+SEG_IMPORT_EQV = "From Cheetah.Gen Require Import SegGenEquiv."
+SEG_PREREQ = ["theories/Base/Mat", "theories/Lattice/Track", "theories/Lattice/TrackProofs", "theories/Lattice/Merge", "theories/Lattice/MergeProofs",
+              "theories/Lattice/Filter", "theories/Beam/Moments", "theories/Gen/SegGenBase"]
+SEG_TARGETS = ["theories/Lattice/MergeProofs", "theories/Lattice/Filter", "theories/Beam/Moments", "theories/Gen/SegGenBase"]
+SEG_DEPS = {"theories/Lattice/TrackProofs": ["theories/Lattice/Track"], "theories/Lattice/Merge": ["theories/Lattice/Track"],
+            "theories/Lattice/MergeProofs": ["theories/Lattice/Merge", "theories/Lattice/TrackProofs"],
+            "theories/Lattice/Filter": ["theories/Lattice/Merge"], "theories/Beam/Moments": ["theories/Base/Mat"],
+            "theories/Gen/SegGenBase": ["theories/Lattice/Track"]}
+
+
+def _seg_prereq_fresh():
+    mt = {}
+    for p in SEG_PREREQ:
+        v, vo = common.COQ / (p + ".v"), common.COQ / (p + ".vo")
+        if not vo.exists() or vo.stat().st_mtime < v.stat().st_mtime:
+            return False
+        mt[p] = vo.stat().st_mtime
+    return all(mt[d] <= mt[p] for p, ds in SEG_DEPS.items() for d in ds)
+
+
+def translator_obligation_seg(run=None, audit="bundle", timeout=200):
+    """Same contract as translator_obligation (statuses ok / translator_failed / equivalence_broken / stage_error, same keys), for the
+    structural code of cheetah/accelerator/segment.py and the generic Element.track (harness/translate_seg.py): regenerates
+    Gen/SegGen.v from common.REPO into the per-process build directory and compiles Gen/SegGenEquiv.v and Gen/SegGenProps.v
+    against the fresh copy.  Records into run.cov["translator_seg"].  Prints nothing."""
+    import translate_seg
+    t0 = time.time()
+    res = dict(status="ok", repo=str(common.REPO), translated=[], lemmas=[], theorems=[], axioms=[])
+
+    def done():
+        res["wall_s"] = round(time.time() - t0, 2)
+        if run is not None:
+            n = len(res["lemmas"]) + len(res["theorems"]) or 1
+            run.cov["obligations"] += n
+            if res["status"] == "ok":
+                run.cov["discharged"] += n
+            run.cov["translator_seg"] = {k: res.get(k) for k in ("status", "reason", "file", "line", "lemma", "generated_sha256", "committed_copy_stale",
+                                                                   "translated", "lemmas", "theorems", "axioms", "wall_s")}
+            tb = ("source-to-Coq translator harness/translate_seg.py (object reading and construct table in its docstring; combinators of "
+                  "Gen/SegGenBase.v): ties Lattice/{Track,Merge,Filter}.v and the Element.track contract of Beam/Moments.v to /repo's source text")
+            if tb not in run.cov["trusted_base"]:
+                run.cov["trusted_base"].append(tb)
+        return res
+
+    # 1. translate (pure syntax; nothing of cheetah is imported)
+    try:
+        text, info = translate_seg.generate(common.REPO)
+    except translate_maps.TranslateError as ex:
+        res.update(status="translator_failed", reason=ex.reason, file=ex.file, line=ex.line)
+        return done()
+    except RecursionError:
+        res.update(status="translator_failed", reason="nesting too deep for the translator", file=None, line=None)
+        return done()
+    res["translated"] = info
+    res["generated_sha256"] = hashlib.sha256(text.encode()).hexdigest()
+    committed = GEN / "SegGen.v"
+    res["committed_copy_stale"] = (not committed.exists()) or committed.read_text() != text
+
+    # 2. prerequisites (hand-written, stable)
+    if not _seg_prereq_fresh():
+        for tgt in SEG_TARGETS:
+            ok, log = common.coq_build(tgt + ".vo")
+            if not ok:
+                res.update(status="stage_error", reason=f"build of {tgt}.vo failed: " + log[-800:])
+                return done()
+
+    bdir = common.BUILD / "translate_seg"
+    bdir.mkdir(parents=True, exist_ok=True)
+    for old in bdir.glob("SegGen*"):
+        old.unlink()
+    extra = ["-Q", str(bdir), FRESH]
+    try:
+        eqv = _redirect((GEN / "SegGenEquiv.v").read_text(), SEG_IMPORT_GEN, f"From {FRESH} Require Import SegGen.", "SegGenEquiv.v")
+        props = _redirect((GEN / "SegGenProps.v").read_text(), SEG_IMPORT_GEN, f"From {FRESH} Require Import SegGen.", "SegGenProps.v")
+        props = _redirect(props, SEG_IMPORT_EQV, f"From {FRESH} Require Import SegGenEquiv.", "SegGenProps.v")
+    except (RuntimeError, OSError) as ex:
+        res.update(status="stage_error", reason=str(ex))
+        return done()
+    res["lemmas"] = re.findall(r"^\s*Lemma\s+(gen_[\w']+)", eqv, flags=re.M)
+    res["theorems"] = re.findall(r"^\s*Theorem\s+([\w']+)", props, flags=re.M)
+    have = {i["coq_name"] for i in info}
+    missing = [c + "_eq" for c in sorted(have) if c + "_eq" not in res["lemmas"]]
+    missing += [lm + " (no such generated definition)" for lm in res["lemmas"] if lm.endswith("_eq") and lm[:-3] not in have]
+    # every equivalence lemma must reach a final statement (a lemma that is stated but not used would not be audited)
+    missing += [lm + " (not used by Gen/SegGenProps.v)" for lm in res["lemmas"] if not re.search(r"\b" + re.escape(lm) + r"\b", props)]
+    if missing:
+        res.update(status="equivalence_broken", lemma="<missing> " + ", ".join(missing), file="SegGenEquiv.v", line=0,
+                   coq_error="the regenerated file, Gen/SegGenEquiv.v and Gen/SegGenProps.v do not list the same definitions")
+        return done()
+    if audit == "bundle":
+        props = re.sub(r"^Print Assumptions [\w']+\.\s*$", "", props, flags=re.M)
+        props += "\nDefinition trs_all := (" + ", ".join(res["theorems"]) + ").\nPrint Assumptions trs_all.\n"
+
+    # 3. compile the fresh transcription, then the proofs against it
+    for name, body in (("SegGen.v", text), ("SegGenEquiv.v", eqv), ("SegGenProps.v", props)):
+        path = bdir / name
+        path.write_text(body)
+        rc, out, err = common.coqc(path, extra=extra, timeout=timeout)
+        if rc != 0:
+            if name == "SegGen.v":
+                m = re.search(r'line (\d+), characters', err or "")
+                res.update(status="translator_failed", reason="generated file does not compile: " + (err or "")[-600:],
+                           file="SegGen.v", line=int(m.group(1)) if m else 0)
+                return done()
+            _coq_failure(res, path, body, rc, err)
+            return done()
+    closed, axioms = _assumptions(out)
+    res["axioms"] = sorted(axioms)
+    # the structural tie needs no axiom at all: anything reported is a failure of the audit
+    bad = sorted(axioms)
+    forbidden = re.compile(r"\b(Admitted|admit|Axiom|Axioms|Parameter|Parameters|Conjecture|Unset Guard Checking|bypass_check)\b")
+    for f in ("SegGenBase.v", "SegGenEquiv.v", "SegGenProps.v"):
+        body = re.sub(r"\(\*.*?\*\)", "", (GEN / f).read_text(), flags=re.S)
+        bad += [f"{m.group(1)} in Gen/{f}" for m in forbidden.finditer(body)]
+    if forbidden.search(text):
+        bad.append("forbidden vernacular in the generated text")
+    if bad or not closed:
+        res.update(status="stage_error", reason=f"axiom audit failed: {bad or 'no Print Assumptions output'}")
+    return done()
+
+
+def replay_fields_seg(res):
+    """Compact, JSON-able description of a non-ok result of translator_obligation_seg for a replay/violation record."""
+    keep = ("status", "reason", "file", "line", "lemma", "coq_error", "generated_sha256")
+    d = {k: res[k] for k in keep if res.get(k) is not None}
+    d["kind"] = "translator_seg"
+    d["broken"] = ("source left the translated fragment: " + str(res.get("reason"))) if res["status"] == "translator_failed" else \
+        (f"Gen/SegGenEquiv.v {res.get('lemma')}: regenerated definition <> hand-written model (Lattice/*.v, Beam/Moments.v)"
+         if res["status"] == "equivalence_broken" else str(res.get("reason")))
+    return d
+
+
 if __name__ == "__main__":
     import json
     import sys
-    r = translator_obligation(audit=sys.argv[1] if len(sys.argv) > 1 else "bundle")
+    args = [a for a in sys.argv[1:] if a != "bmadx"]           # `translate_stage.py bmadx [bundle|full]` runs the Bmad-X stage
+    stage = translator_obligation_bmadx if "bmadx" in sys.argv[1:] else translator_obligation
+    r = stage(audit=args[0] if args else "bundle")
     brief = dict(r)
     brief["translated"] = [f"{i['function']} {i['file']}:{i['first_line']}-{i['last_line']} {i['source_sha256'][:12]}" for i in r["translated"]]
     print(json.dumps(brief, indent=1))
     sys.exit(0 if r["status"] == "ok" else 1)
+
+
+# ================================================================================================================
+# translator_obligation_stats -- the same stage for the beam-statistics / diagnostics formulas (harness/translate_stats.py).
+# Regenerates Gen/StatsGen.v from the CURRENT source text of common.REPO into the per-process build directory, compiles it,
+# and compiles Gen/StatsGenEquiv.v and Gen/StatsGenProps.v AGAINST THE FRESH COPY (the committed Gen/StatsGen.v is never
+# trusted).  Same result structure and statuses as translator_obligation; prints nothing; records what was translated in
+# run.cov["translator_stats"].  Used by C17, C06, C10, C20.
+STATS_IMPORT_GEN = "From Cheetah.Gen Require Import StatsGen."
+STATS_IMPORT_EQV = "From Cheetah.Gen Require Import StatsGenEquiv."
+STATS_PREREQ = ["theories/Base/Mat", "theories/Optics/Maps", "theories/Beam/Moments", "theories/Beam/WMoments", "theories/Beam/WStats",
+                "theories/Beam/Twiss", "theories/Beam/TwCorr", "theories/Beam/SI", "theories/Diag/Aperture", "theories/Diag/Screen",
+                "theories/Gen/StatsGenBase"]
+STATS_TRUSTED = ("source-to-Coq translator harness/translate_stats.py (sample reading, shape tags, extended-real and idiom tables in its "
+                 "docstring): ties Beam/WStats.v, Beam/Twiss.v, Beam/TwCorr.v, Beam/WMoments.v, Beam/SI.v, Diag/Aperture.v, Diag/Screen.v "
+                 "to /repo's source text")
+
+
+def _stats_prereq_stale():
+    """Prerequisite theories whose .vo is missing or older than its source (or than the .vo of an earlier prerequisite)."""
+    stale, newest = [], 0.0
+    for p in STATS_PREREQ:
+        v, vo = common.COQ / (p + ".v"), common.COQ / (p + ".vo")
+        if not vo.exists() or vo.stat().st_mtime < v.stat().st_mtime:
+            stale.append(p)
+    base = common.COQ / (STATS_PREREQ[-1] + ".vo")
+    if not stale and base.exists():
+        for p in ("theories/Base/Mat", "theories/Beam/WStats"):        # what Gen/StatsGenBase.v itself imports
+            if (common.COQ / (p + ".vo")).stat().st_mtime > base.stat().st_mtime:
+                stale.append(STATS_PREREQ[-1])
+                break
+    return stale
+
+
+def translator_obligation_stats(run=None, audit="bundle", timeout=200):
+    """audit = "bundle": one Print Assumptions over all final statements (fast); "full": one per theorem, as in the committed file."""
+    import translate_stats
+    t0 = time.time()
+    res = dict(status="ok", repo=str(common.REPO), translated=[], lemmas=[], theorems=[], axioms=[])
+
+    def done():
+        res["wall_s"] = round(time.time() - t0, 2)
+        if run is not None:
+            n = len(res["lemmas"]) + len(res["theorems"]) or 1
+            run.cov["obligations"] += n
+            if res["status"] == "ok":
+                run.cov["discharged"] += n
+            run.cov["translator_stats"] = {k: res.get(k) for k in ("status", "reason", "file", "line", "lemma", "generated_sha256", "committed_copy_stale",
+                                                                     "translated", "lemmas", "theorems", "axioms", "wall_s")}
+            if STATS_TRUSTED not in run.cov["trusted_base"]:
+                run.cov["trusted_base"].append(STATS_TRUSTED)
+        return res
+
+    # 1. translate (pure syntax; nothing of cheetah is imported)
+    try:
+        text, info = translate_stats.generate(common.REPO)
+    except translate_stats.TranslateError as ex:
+        res.update(status="translator_failed", reason=ex.reason, file=ex.file, line=ex.line)
+        return done()
+    except RecursionError:
+        res.update(status="translator_failed", reason="expression nesting too deep for the translator", file=None, line=None)
+        return done()
+    res["translated"] = info
+    res["generated_sha256"] = hashlib.sha256(text.encode()).hexdigest()
+    committed = GEN / "StatsGen.v"
+    res["committed_copy_stale"] = (not committed.exists()) or committed.read_text() != text
+
+    # 2. prerequisites (hand-written, stable theories the proofs refer to)
+    for p in _stats_prereq_stale():
+        ok, log = common.coq_build(p + ".vo")
+        if not ok:
+            res.update(status="stage_error", reason=f"build of {p}.vo failed: " + log[-800:])
+            return done()
+
+    bdir = common.BUILD / "translate_stats"
+    bdir.mkdir(parents=True, exist_ok=True)
+    for old in bdir.glob("StatsGen*"):
+        old.unlink()
+    extra = ["-Q", str(bdir), FRESH]
+    try:
+        eqv = _redirect((GEN / "StatsGenEquiv.v").read_text(), STATS_IMPORT_GEN, f"From {FRESH} Require Import StatsGen.", "StatsGenEquiv.v")
+        props = _redirect((GEN / "StatsGenProps.v").read_text(), STATS_IMPORT_GEN, f"From {FRESH} Require Import StatsGen.", "StatsGenProps.v")
+        props = _redirect(props, STATS_IMPORT_EQV, f"From {FRESH} Require Import StatsGenEquiv.", "StatsGenProps.v")
+    except (RuntimeError, OSError) as ex:
+        res.update(status="stage_error", reason=str(ex))
+        return done()
+    res["lemmas"] = re.findall(r"^\s*Lemma\s+(gen_[\w']+)", eqv, flags=re.M)
+    res["theorems"] = re.findall(r"^\s*Theorem\s+([\w']+)", props, flags=re.M)
+    # every generated definition must be the subject of a lemma
+    missing = [i["coq_name"] + "_eq" for i in info if i["coq_name"] + "_eq" not in res["lemmas"]]
+    missing += [i["coq_name"] + "_pre_eq" for i in info if i["has_precondition"] and i["coq_name"] + "_pre_eq" not in res["lemmas"]]
+    if missing:
+        res.update(status="equivalence_broken", lemma="<missing> " + ", ".join(missing), file="StatsGenEquiv.v", line=0,
+                   coq_error="the regenerated file contains definitions for which Gen/StatsGenEquiv.v states no lemma")
+        return done()
+    if audit == "bundle":
+        props = re.sub(r"^Print Assumptions [\w']+\.\s*$", "", props, flags=re.M)
+        props += "\nDefinition tr_all := (" + ", ".join("@" + t for t in res["theorems"]) + ").\nPrint Assumptions tr_all.\n"
+
+    # 3. compile the fresh transcription, then the proofs against it
+    out = ""
+    for name, body in (("StatsGen.v", text), ("StatsGenEquiv.v", eqv), ("StatsGenProps.v", props)):
+        path = bdir / name
+        path.write_text(body)
+        rc, out, err = common.coqc(path, extra=extra, timeout=timeout)
+        if rc != 0:
+            if name == "StatsGen.v":
+                m = re.search(r'line (\d+), characters', err or "")
+                res.update(status="translator_failed", reason="generated file does not compile: " + (err or "")[-600:],
+                           file="StatsGen.v", line=int(m.group(1)) if m else 0)
+                return done()
+            _coq_failure(res, path, body, rc, err)
+            return done()
+    closed, axioms = _assumptions(out)
+    res["axioms"] = sorted(axioms)
+    bad = sorted(a for a in axioms if a not in common.AXIOM_WHITELIST and a.split(".")[-1] not in common.AXIOM_WHITELIST)
+    forbidden = re.compile(r"\b(Admitted|admit|Axiom|Axioms|Parameter|Parameters|Conjecture|Unset Guard Checking|bypass_check)\b")
+    for f in ("StatsGenBase.v", "StatsGenEquiv.v", "StatsGenProps.v"):
+        body = re.sub(r"\(\*.*?\*\)", "", (GEN / f).read_text(), flags=re.S)
+        bad += [f"{m.group(1)} in Gen/{f}" for m in forbidden.finditer(body)]
+    if forbidden.search(text):
+        bad.append("forbidden vernacular in the generated text")
+    if bad or (not axioms and not closed):
+        res.update(status="stage_error", reason=f"axiom audit failed: {bad or 'no Print Assumptions output'}")
+    return done()
+
+
+def replay_fields_stats(res):
+    """Compact, JSON-able description of a non-ok result of translator_obligation_stats for a replay/violation record."""
+    keep = ("status", "reason", "file", "line", "lemma", "coq_error", "generated_sha256")
+    d = {k: res[k] for k in keep if res.get(k) is not None}
+    d["kind"] = "translator_stats"
+    d["broken"] = ("source left the translated fragment: " + str(res.get("reason"))) if res["status"] == "translator_failed" else \
+        (f"Gen/StatsGenEquiv.v {res.get('lemma')}: regenerated definition <> hand-written model" if res["status"] == "equivalence_broken"
+         else str(res.get("reason")))
+    return d
